@@ -232,10 +232,12 @@ type instance struct {
 	alt    *wit.Witness
 	altSrv *httptest.Server
 	dsn    string
+	fc     *faultCtl // storage-fault histories (fault.go): the database is opened over the fault-injecting driver
 }
 
 func (h *harness) newInstance(mode string, logs []*logT, viaHTTP bool) *instance {
-	in := &instance{mode: mode, logs: logs}
+	in := &instance{mode: mode, logs: logs, fc: h.nextFault}
+	h.nextFault = nil
 	switch mode {
 	case "memory-1conn":
 		in.dsn = ":memory:"
@@ -264,8 +266,9 @@ func (h *harness) newInstance(mode string, logs []*logT, viaHTTP bool) *instance
 
 func (in *instance) openDB() {
 	var err error
-	in.db, err = sql.Open("sqlite3", in.dsn)
-	if err != nil {
+	if in.fc != nil {
+		in.db = openFaultDB(in.dsn, in.fc)
+	} else if in.db, err = sql.Open("sqlite3", in.dsn); err != nil {
 		panic(err)
 	}
 	if strings.HasPrefix(in.mode, "file-pool") {
@@ -603,6 +606,7 @@ type harness struct {
 	dbn        int
 	witnessPEM string
 	wv         *wit.WitnessVerifier
+	nextFault  *faultCtl // consumed by the next newInstance (fault.go)
 	strict     bool // flag the two documented findings as property failures (VERIF_C19_STRICT=1)
 }
 
